@@ -74,23 +74,11 @@ func newExpoHistogramDataPoint[N int64 | float64](
 
 // record adds a new measurement to the histogram. It will rescale the buckets if needed.
 func (p *expoHistogramDataPoint[N]) record(v N) {
-	p.count++
-
-	if !p.noMinMax {
-		if v < p.min {
-			p.min = v
-		}
-		if v > p.max {
-			p.max = v
-		}
-	}
-	if !p.noSum {
-		p.sum += v
-	}
-
 	absV := math.Abs(float64(v))
 
 	if float64(absV) == 0.0 {
+		p.count++
+		p.minMaxSum(v)
 		p.zeroCount++
 		return
 	}
@@ -119,7 +107,24 @@ func (p *expoHistogramDataPoint[N]) record(v N) {
 		bin = p.getBin(absV)
 	}
 
+	p.count++
+	p.minMaxSum(v)
 	bucket.record(bin)
+}
+
+// minMaxSum updates the min, max and sum of p with v.
+func (p *expoHistogramDataPoint[N]) minMaxSum(v N) {
+	if !p.noMinMax {
+		if v < p.min {
+			p.min = v
+		}
+		if v > p.max {
+			p.max = v
+		}
+	}
+	if !p.noSum {
+		p.sum += v
+	}
 }
 
 // getBin returns the bin v should be recorded into.
